@@ -7,7 +7,7 @@
 
    The property itself (PathNS!FtpCmd: every access of every command is inside
    the root) is what the trace spec checks on real sessions; here TLC checks it
-   on the design, for every session up to the bound:  NothingOutside.
+   on the design, for every session up to the bound (PathFtpMC!StepConfined).
 
    Directory tree: dirs / files are sets of locations *relative to the shell
    root* (<<>> is the root).  Existence only decides which branch a command
